@@ -209,8 +209,7 @@ Section P.
   Lemma pcache_wf_init root path d : pcache_wf d (fst (fst (cache_init bh root path d))).
   Proof.
     unfold cache_init. destruct (dispatch bh root _) as [ef root']. cbn [fst].
-    destruct (ef_replies ef) as [|[vals|e m] [|? ?]]; try exact I.
-    destruct vals as [|[] [|? ?]]; try exact I; try (cbn [pcache_wf]; apply cache_wf_filtered).
-    all: destruct vals; exact I.
+    repeat match goal with |- context [match ?x with _ => _ end] => destruct x end;
+      cbn [pcache_wf]; auto using cache_wf_filtered.
   Qed.
 End P.
